@@ -30,12 +30,13 @@ def deep_equal(seq1: Iterable[Any],
 
     etree_node_types = (EtreeElementNode, CommentNode, ProcessingInstructionNode)
 
-    def etree_deep_equal(e1: ElementProtocol, e2: ElementProtocol) -> bool:
+    def etree_deep_equal(e1: ElementProtocol, e2: ElementProtocol, tail: bool = False) -> bool:
+        # the tail of a compared item is a sibling text node, not part of the item
         if cm.ne(e1.tag, e2.tag):
             return False
         elif cm.ne((e1.text or '').strip(), (e2.text or '').strip()):
             return False
-        elif cm.ne((e1.tail or '').strip(), (e2.tail or '').strip()):
+        elif tail and cm.ne((e1.tail or '').strip(), (e2.tail or '').strip()):
             return False
         elif len(e1) != len(e2) or len(e1.attrib) != len(e2.attrib):
             return False
@@ -50,7 +51,7 @@ def deep_equal(seq1: Iterable[Any],
 
         if items1 != items2:
             return False
-        return all(etree_deep_equal(c1, c2) for c1, c2 in zip(e1, e2))
+        return all(etree_deep_equal(c1, c2, True) for c1, c2 in zip(e1, e2))
 
     def as_sequence(value: Any) -> Any:
         return value if isinstance(value, list) else [value]
